@@ -180,6 +180,8 @@ func runC15(c *Ctx) {
 		}
 	}
 
+	pureScan(c, "C15.pure.no-package-state", fn)
+
 	// no input writes: every function of the package
 	for _, pf := range c.P.RepoFuncs("pkg/merkle") {
 		if strings.HasPrefix(pf.Name(), "init") {
